@@ -28,6 +28,8 @@ func main() {
 	workers := fs.Int("workers", runtime.NumCPU(), "parallel workers")
 	budget := fs.Float64("budget", 1, "case count multiplier")
 	replay := fs.String("replay", "", "replay file")
+	fs.IntVar(&c03From, "from", 0, "first case index (child mode)")
+	fs.IntVar(&c03To, "to", 0, "end case index (child mode)")
 	fs.Parse(os.Args[2:])
 	ctx := &Ctx{Seed: *seed, Tier: *tier, Oracle: *oracle, Workers: *workers, Budget: *budget}
 	cnt := func(q, t int) int {
@@ -40,19 +42,40 @@ func main() {
 		}
 		return int(float64(k) * *budget)
 	}
-	_ = replay
 	var res Result
-	switch stage {
-	case "c01-search":
-		res = searchC01(ctx, cnt(3000, 200000))
-	default:
-		if f, ok := stages[stage]; ok {
-			res = f(ctx, cnt, *replay)
-		} else {
-			fatal("unknown stage %s", stage)
+	if *replay != "" {
+		rf, ok := replays[stage]
+		if !ok {
+			fatal("stage %s has no replay", stage)
 		}
+		raw, err := os.ReadFile(*replay)
+		if err != nil {
+			fatal("read replay: %v", err)
+		}
+		var v struct {
+			Case json.RawMessage `json:"case"`
+		}
+		if err := json.Unmarshal(raw, &v); err != nil {
+			fatal("parse replay: %v", err)
+		}
+		o := StartOracle(ctx.Oracle)
+		col := NewCollector("", stage+"-replay", "replay of one recorded case")
+		if viol := rf(ctx, o, v.Case); viol != nil {
+			col.Violate(*viol)
+		}
+		col.Eval("replay", true)
+		o.Close()
+		res = col.Finish()
+		writeJSON(*out, res)
+		return
+	}
+	if f, ok := stages[stage]; ok {
+		res = f(ctx, cnt, *replay)
+	} else {
+		fatal("unknown stage %s", stage)
 	}
 	writeJSON(*out, res)
 }
 
 var stages = map[string]func(ctx *Ctx, cnt func(q, t int) int, replay string) Result{}
+var replays = map[string]func(ctx *Ctx, o *Oracle, raw json.RawMessage) *Violation{}
